@@ -483,3 +483,147 @@ if __name__ == "__main__":
     import os
     repo = os.environ.get("VERIF_REPO", "/repo")
     for t in generate(lambda p: open(os.path.join(repo, p)).read()): print(t)
+
+
+# =====================================================================================================================
+# Float formulas: the body of a function made of `let` bindings over + - * /, float literals, `.to_radians()`,
+# `libm::{sin,cos,sqrt,atan2,fmax}`, `f64::{ln,tan}`, tuple fields and a final expression / tuple, translated to a Lean term
+# over a structure of operations (`H.add`, `H.sin`, ...). Nothing is said about floating-point semantics: the generated definition
+# is *generic in the number type*; the theorems instantiate it with ℝ (and the driver with Float), and a `rfl` theorem ties it to the
+# hand-written generic definition the theorems were proved for.
+FTOK = re.compile(r"\s*(?:([0-9][0-9_]*\.[0-9_]*(?![A-Za-z_])|[0-9][0-9_]*)|([A-Za-z_][A-Za-z_0-9]*(?:::[A-Za-z_][A-Za-z_0-9]*)*)|(#\[[^\]]*\])|([-+*/(){};:,.=]))")
+
+def ftokenize(src):
+    out = []; i = 0
+    src = re.sub(r"/\*.*?\*/", "", src, flags=re.S); src = re.sub(r"//[^\n]*", "", src)
+    while True:
+        m = FTOK.match(src, i)
+        if not m:
+            if src[i:].strip() == "": return out
+            raise Unsupported("float formula: cannot tokenize at: " + src[i:i + 40].strip())
+        if m.group(1) is not None: out.append(("num", m.group(1).replace("_", "")))
+        elif m.group(2) is not None: out.append(("id", m.group(2)))
+        elif m.group(3) is not None: pass                      # attributes such as #[allow(..)]
+        else: out.append(("op", m.group(4)))
+        i = m.end()
+
+class FP:
+    """H = name of the operations structure in the emitted term; env: Rust name -> Lean text"""
+    FUN1 = {"libm::sin": "sin", "libm::cos": "cos", "libm::sqrt": "sqrt", "f64::ln": "ln", "f64::tan": "tan"}
+    def __init__(self, toks, env, consts):
+        self.t = toks; self.i = 0; self.env = dict(env); self.consts = consts
+    def peek(self, k=0): return self.t[self.i + k] if self.i + k < len(self.t) else ("eof", None)
+    def eat(self, kind, val=None):
+        tok = self.peek()
+        if tok[0] != kind or (val is not None and tok[1] != val): raise Unsupported("float formula: expected %s %s, found %s" % (kind, val, tok))
+        self.i += 1; return tok
+    def lit(self, text):
+        # only literals with an integral value occur (2.00, 180.0, 6371.00, 0.0, 4.0, 360.0); anything else is outside the fragment
+        if "." in text:
+            a, b = text.split(".")
+            if b.strip("0") != "": raise Unsupported("float formula: non-integral literal " + text)
+            text = a
+        return "(H.lit %d)" % int(text)
+    def expr(self):
+        a = self.term()
+        while self.peek() in (("op", "+"), ("op", "-")):
+            op = self.eat("op")[1]; b = self.term()
+            a = "(H.%s %s %s)" % ("add" if op == "+" else "sub", a, b)
+        return a
+    def term(self):
+        a = self.postfix()
+        while self.peek() in (("op", "*"), ("op", "/")):
+            op = self.eat("op")[1]; b = self.postfix()
+            a = "(H.%s %s %s)" % ("mul" if op == "*" else "div", a, b)
+        return a
+    def postfix(self):
+        a = self.atom()
+        while self.peek() == ("op", "."):
+            nxt = self.peek(1)
+            if nxt == ("id", "to_radians"):
+                self.i += 2; self.eat("op", "("); self.eat("op", ")")
+                a = "(H.mul %s (H.div H.pi (H.lit 180)))" % a          # f64::to_radians: self * (PI / 180.0)
+            else: break
+        return a
+    def atom(self):
+        tok = self.peek()
+        if tok[0] == "num":
+            self.i += 1; return self.lit(tok[1])
+        if tok == ("op", "("):
+            self.i += 1; e = self.expr(); self.eat("op", ")"); return e
+        if tok == ("op", "-"):
+            self.i += 1; return "(H.neg %s)" % self.postfix()
+        if tok[0] == "id":
+            name = tok[1]
+            if name in self.FUN1 and self.peek(1) == ("op", "("):
+                self.i += 2; a = self.expr(); self.eat("op", ")"); return "(H.%s %s)" % (self.FUN1[name], a)
+            if name == "libm::atan2" and self.peek(1) == ("op", "("):
+                self.i += 2; a = self.expr(); self.eat("op", ","); b = self.expr(); self.eat("op", ")"); return "(H.atan2 %s %s)" % (a, b)
+            if name == "libm::fmax" and self.peek(1) == ("op", "("):
+                self.i += 2; a = self.expr(); self.eat("op", ","); z = self.eat("num")
+                if float(z[1]) != 0.0: raise Unsupported("float formula: fmax with a non-zero bound")
+                self.eat("op", ")"); return "(H.max0 %s)" % a
+            if name in ("std::f64::consts::PI", "f64::consts::PI", "core::f64::consts::PI", "PI"):
+                self.i += 1; return "H.pi"
+            if name in self.consts:
+                self.i += 1; return self.consts[name]
+            # tuple field / struct field: `s.0`, `other.1`, `self.scale`
+            if self.peek(1) == ("op", ".") and self.peek(2)[0] in ("num", "id") and self.peek(2) != ("id", "to_radians"):
+                key = name + "." + self.peek(2)[1]
+                if key in self.env:
+                    self.i += 3; return self.env[key]
+            if name in self.env:
+                self.i += 1; return self.env[name]
+            raise Unsupported("float formula: unknown name " + name)
+        raise Unsupported("float formula: unexpected token %s" % (tok,))
+    def body(self):
+        """`let` bindings, then a final expression or pair -> Lean text"""
+        lets = []
+        while self.peek() == ("id", "let"):
+            self.i += 1
+            if self.peek() == ("op", "("):                                   # `let (x, y) = (e1, e2);`
+                self.i += 1; n1 = self.eat("id")[1]; self.eat("op", ","); n2 = self.eat("id")[1]; self.eat("op", ")"); self.eat("op", "=")
+                self.eat("op", "("); e1 = self.expr(); self.eat("op", ","); e2 = self.expr(); self.eat("op", ")"); self.eat("op", ";")
+                l1 = "x%d" % len(lets); lets.append((l1, e1)); l2 = "x%d" % len(lets); lets.append((l2, e2))
+                self.env[n1] = l1; self.env[n2] = l2; continue
+            name = self.eat("id")[1]
+            if self.peek() == ("op", ":"): self.i += 1; self.eat("id", "f64")
+            self.eat("op", "="); e = self.expr(); self.eat("op", ";")
+            ln = "x%d" % len(lets); lets.append((ln, e)); self.env[name] = ln
+        if self.peek() == ("op", "("):
+            save = self.i
+            try:
+                self.i += 1; e1 = self.expr(); self.eat("op", ","); e2 = self.expr(); self.eat("op", ")")
+                res = "(%s, %s)" % (e1, e2)
+            except Unsupported:
+                self.i = save; res = self.expr()
+        else: res = self.expr()
+        if self.peek()[0] != "eof": raise Unsupported("float formula: trailing tokens %s" % (self.peek(),))
+        return "".join("  let %s := %s\n" % l for l in lets) + "  " + res + "\n"
+
+def generate_formulas(read):
+    """-> text of Gen/Formulas.lean"""
+    common = strip_comments(read("rsadsb_common/src/lib.rs")); radar = strip_comments(read("apps/src/radar/radar.rs"))
+    out = ["import Adsb.TrackerF", "import Adsb.App", "/-! GENERATED by /verif/tools/rust2lean.py (called from extract.py) from /repo on every run. Do not edit.",
+           "The numeric formulas of the tracker and of the map, as terms over a structure of operations (generic in the number type). -/", "namespace Adsb.Gen", "open Adsb", ""]
+    # haversine_distance(s: (f64, f64), other: (f64, f64)) -> f64
+    head, body = fn_text(common, r"fn haversine_distance\(s: \(f64, f64\), other: \(f64, f64\)\) -> f64 \{")
+    m = re.search(r"let r = ([0-9_.]+);", body)
+    if not m: raise Unsupported("float formula: the radius `let r = ..;` of haversine_distance")
+    p = FP(ftokenize(body), {"s.0": "s.1", "s.1": "s.2", "other.0": "o.1", "other.1": "o.2"}, {})
+    out.append("/-- `AirplaneCoor::haversine_distance` -/\ndef haversineSrc {α : Type} (H : HavOps α) (s o : α × α) : α :=\n" + p.body())
+    # Settings::to_mercator(&self, lat, long) with scale = self.scale * scale::DEFAULT passed in as `sc`
+    head, body = fn_text(radar, r"fn to_mercator\(&self, lat: f64, long: f64\) -> \(f64, f64\) \{")
+    m = re.match(r"\s*let scale: f64 = self\.scale \* scale::DEFAULT;", body)
+    if not m: raise Unsupported("float formula: to_mercator does not start with the scale line")
+    p = FP(ftokenize(body[m.end():]), {"scale": "sc", "lat": "lat", "long": "lon"}, {})
+    out.append("/-- `Settings::to_mercator`; `sc` = `self.scale * scale::DEFAULT` -/\ndef toMercatorSrc {α : Type} (H : MercOps α) (sc lat lon : α) : α × α :=\n" + p.body())
+    # Settings::to_xy: (x - local_x, (y - local_y) * -1.0)
+    head, body = fn_text(radar, r"fn to_xy\(&self, latitude: f64, longitude: f64\) -> \(f64, f64\) \{")
+    want = "let (local_x, local_y) = self.local_lat_lon(); let (x, y) = self.to_mercator(latitude, longitude); let (x, y) = (x - local_x, y - local_y); (x, y * -1.0)"
+    if re.sub(r"\s+", " ", body).strip() != want: raise Unsupported("float formula: to_xy has another shape")
+    out.append("/-- `Settings::to_xy` relative to the view centre `(lat0, lon0)` (what `local_lat_lon` projects) -/\n"
+               "def toXYSrc {α : Type} (H : MercOps α) (sc lat0 lon0 lat lon : α) : α × α :=\n"
+               "  let l := toMercatorSrc H sc lat0 lon0\n  let p := toMercatorSrc H sc lat lon\n  (H.sub p.1 l.1, H.mul (H.sub p.2 l.2) (H.neg (H.lit 1)))\n")
+    out.append("end Adsb.Gen\n")
+    return "\n".join(out)
